@@ -9,10 +9,15 @@ kvs/redis client (every Redis command of every client released one at a time by 
                               (`x<abs>` / `@<abs>`: absolute expiry in ms; absent = no expiry; value `-` = empty)
   tick d        | now <new now>     the clock advances by d ms (`tick-blocked …` if a client is inside a TTL window)
   cmd t         | <name> <reply>    the model computes the command client t issues next and the server's reply;
-                                    a write with expiry e is labelled `… px<e - now>` (the relative TTL it carries)
+                                    a write with expiry e is labelled `… px<ttl>`: the relative TTL it carries,
+                                    `deadlineOf e now − now` = max 1 (e − now)  (so `px1` for a past or present expiry)
   ret t         | <result>          the model's `done r` (`ok` for the loop path of PutMany)
 Versions are ordinals of the write that stored them (0 = a version never stored).
-Records are shown as `val:ver`, or `val:ver@<exp>` when they have an expiry.
+Records are shown as `val:ver`, or `val:ver@<exp>` when they have an expiry: the PAYLOAD expiry, i.e.
+the absolute expiry that was requested (also when it lies in the past); whether a record is visible
+follows the server purged at `now` (key deadline `deadlineOf e <time of the write>` ≤ now: gone).
+Keys are shown as the client gave them; the server is keyed by `rKey k` ("/kvs/" + k without leading
+slashes), so aliasing keys ("s", "/s") hit the same record and the same watch.
 -/
 namespace DrvRedisTrace
 open Kv RedisConc Drv
@@ -35,30 +40,34 @@ def showOut : Out → String
   | .ok => "ok" | .errNotExist => "errNotExist" | .errConflict => "errConflict"
   | .keys l => s!"keys {l}" | .waitNil => "waitNil" | .blocks => "blocks" | .otherErr => "other"
 
+/-- the look-up every command does: the key on the server purged at `now` -/
+def look (s : St) (k : String) : Option Rec := (s.psrv.srv.get (rKey k)).map (·.r)
+
 def showGet (s : St) (k : String) : String :=
-  match s.srv.live s.now k with
+  match look s k with
   | some r => "get " ++ showRec r
   | none => "get nil"
 
-/-- the relative TTL a write command carries: ` px<e - now>`; nothing without expiry -/
-def showPx (s : St) : Option Nat → String
-  | some e => s!" px{e - s.now}"
+/-- the relative TTL a write command carries: ` px<deadlineOf e now - now>` (at least 1 ms); nothing without expiry -/
+def showPx (s : St) (e : Option Nat) : String :=
+  match deadlineOf e s.now with
+  | some d => s!" px{d - s.now}"
   | none => ""
 
 /-- name and reply of the command client t issues next (computed on the state BEFORE the command) -/
 def cmdLabel (s : St) (t : Nat) : String :=
   match s.pc[t]? with
-  | some (.create1 k _ e) => match s.srv.live s.now k with
+  | some (.create1 k _ e) => match look s k with
     | some _ => "setnx 0"
     | none => s!"setnx 1 {s.srv.nextVer}{showPx s e}"
   | some (.create2 k _ _) => showGet s k
   | some (.get k) => showGet s k
-  | some (.getMany ks) => "mget [" ++ ",".intercalate (ks.map fun k => match s.srv.live s.now k with
+  | some (.getMany ks) => "mget [" ++ ",".intercalate (ks.map fun k => match look s k with
       | some r => showRec r | none => "nil") ++ "]"
   | some (.put _ _ e) => s!"set OK {s.srv.nextVer}{showPx s e}"
   | some (.putMany rs) => "mset OK " ++ ",".intercalate ((List.range rs.length).map fun i => toString (s.srv.nextVer + i))
   | some (.putLoop ((_, _, e) :: _)) => s!"set OK {s.srv.nextVer}{showPx s e}"
-  | some (.del k) => match s.srv.live s.now k with
+  | some (.del k) => match look s k with
     | some _ => "del 1"
     | none => "del 0"
   | some (.casWatch _ _ _ _) => "watch OK"
@@ -78,8 +87,14 @@ def showPc : Pc → String
   | .casExec k v _ e => s!"casExec({k},{v}{showExp e})"
   | .done r => s!"done({showOut r})"
 
+def showDeadline : Option Nat → String
+  | some d => s!"!{d}"
+  | none => ""
+
+/-- diagnostic dump: the server purged at `now` (Redis key without the "/kvs/" prefix, record with its
+payload expiry, `!<deadline>` = the key's absolute deadline), the id source, the pcs, the watches (Redis keys) -/
 def showState (s : St) : String :=
-  s!"now={s.now} store={s.srv.store.map fun e => (e.1, showRec e.2)} next={s.srv.nextVer} pcs={s.pc.map showPc} watch={s.watch}"
+  s!"now={s.now} store={s.psrv.srv.keys.map fun e => (String.ofList (e.1.toList.drop 5), showRec e.2.r ++ showDeadline e.2.deadline)} next={s.srv.nextVer} pcs={s.pc.map showPc} watch={s.watch}"
 
 def unval (v : String) : String := if v = "-" then "" else v
 
